@@ -1,7 +1,8 @@
 """C02 - cw20: balances move only by the holder or within a valid allowance."""
 from ..engine import show, RESULT
 from ..idioms import (cell_delta, dispatch, entry_points, field_of, inexact_ops, loaded_from, nf, storage_items,
-                      update_base, walk, NF, response_entries)
+                      update_base, walk, NF, response_entries, order_facts, stored_entry)
+from ..prims import is_rmw
 
 ID = "C02"
 CRATE = "cw20_base"
@@ -166,17 +167,16 @@ def run(ctx):
 
 def check_draw(p, i, e):
     """canonical draw: update; conds before the write: entry Some, not expired; value = old{allowance:=…}"""
-    if e.op != "update":
-        return "draw is not an atomic update (op %s)" % e.op
-    old = e.old
+    if not is_rmw(e) or e.op == "remove":
+        return "draw is not a read-modify-write of the stored entry (op %s)" % e.op
+    entry, some = stored_entry(e, p)
     base, fields = update_base(e.value)
-    if base != ("vfield", old, "Some", "0"):
+    if base != entry:
         return "draw stores a value not derived from the stored entry: %s" % show(e.value)[:200]
     if set(fields) - {"allowance"}:
         return "draw changes fields other than `allowance`: %s" % sorted(fields)
     if "allowance" not in fields:
         return "draw does not lower the allowance"
-    some = any(c[0] == old and c[1] == "Some" for c in p.conds)
     if not some:
         return "draw succeeds without the allowance entry being present"
     exp = ("field", base, "expires")
@@ -208,14 +208,7 @@ def check_decrease(ctx, p, key, alww):
         allowance = ("field", base, "allowance")
         # path condition must imply amount <= allowance: (amount lt allowance)=True or (amount le allowance)=True
         # or (allowance lt amount)=False or (allowance le amount)=False
-        implied = False
-        for c in p.conds:
-            t, o = c[0], c[1]
-            if t[0] == "cmp" and c[3] <= i:
-                if t[1] in ("lt", "le") and t[2] == amount and t[3] == allowance and o is True:
-                    implied = True
-                if t[1] == "lt" and t[2] == allowance and t[3] == amount and o is False:
-                    implied = True
+        implied = any(lo == amount and hi == allowance for lo, hi, strict, c in order_facts(p.conds, before=i))
         ctx.ob("R02.4", key + "/subtract", bool(exact and implied), sites=[e.site],
                detail="decrease path subtracts %s without a path condition implying amount <= allowance (conds: %s)"
                       % (d.nf.show(), [(show(c[0])[:120], c[1]) for c in p.conds if c[0][0] == "cmp"]),
